@@ -117,7 +117,7 @@ theorem addItem_str (n : Nat) (cfg : Cfg) (line t : Str) (r : Str × List Str)
     cases n with
     | zero => simp [addItem, strItem, bind, Except.bind] at h
     | succ n =>
-      simp only [addItem, strItem, trySplit, itemStr, bind, Except.bind, pure, Except.pure] at h
+      simp only [addItem, strItem, trySplit, flatItem, bind, Except.bind, pure, Except.pure] at h
       unfold addStrItem
       split at h
       · next hh => simp at h; simp [hh, h]
